@@ -224,7 +224,7 @@ func (w *World) monitorDelivery(prop string) {
 				if w.markerOnWire(op.Msg) && len(op.Msg) >= 4 {
 					w.Violate("C14", "refused-publish-on-wire", "%s op %d returned %s yet its payload is on the wire", a.spec.Name, r.Idx, r.Class)
 				}
-				for k, v := range w.store.m {
+				for k, v := range w.records() {
 					if len(op.Msg) >= 4 && bytes.Contains(v, op.Msg) {
 						w.Violate(prop, "refused-publish-stored", "%s op %d returned %s yet record %#x holds its payload", a.spec.Name, r.Idx, r.Class, k)
 					}
@@ -250,7 +250,7 @@ func (w *World) monitorDelivery(prop string) {
 		}
 	}
 	if stable && w.quiet {
-		for k, v := range w.store.m {
+		for k, v := range w.records() {
 			if k != 0 && k&(1<<16) == 0 {
 				w.Violate(prop, "record-left-behind", "outbound record %#x still stored at quiescence (%d bytes)", k, len(v))
 			}
